@@ -1,7 +1,7 @@
 """Generators of display names, addresses, mailbox texts, builder programs (C17, C01)."""
 from tools.lv import hexs
 
-NAMES = [None, "", " ", "Joe", "Joe Q. Public", "  padded  ", "a  b", "a\tb", "Mary Smith", "Joe, Q.", "\"quoted\"", "back\\slash", "<angle>",
+NAMES = [None, "", " ", "Joe", "Joe Q. Public", "  padded  ", "a  b", "a\tb", "Mary Smith", "Joe, Q.", "\"quoted\"", "back\\slash", "Backup C:\\", "\\", "<angle>",
          "semi;colon", "at@sign", "(paren)", "Ünïcödé", "日本語", "😀 smile", "a\x00b", "a\rb", "a\nb", "a\r\nb", "\x7f", "\x01ctl", "9", "x9y",
          "Dr. O'Neil", "a.b", "name with = and ?", "=?utf-8?b?aGk=?=", "x" * 100, "é" * 40, "tab\tinside", "trailing ", " leading",
          "comma, inside", "dot.", ".", "a:b", "[bracket]", "NBSP\u00a0x", "LS\u2028x"]
